@@ -20,7 +20,8 @@ RULE = ("(1) Traced runs from the shared end-to-end generator that converged (ru
         "centred on the scalar mean of all entries matches the signature of known finding KF2; any third value is a "
         "violation. Non-trivial = the per-column and scalar-centre formulas differ by more than 1e-6 relative (so the check "
         "can tell them apart); distinct by SHA-1 of the case."
-        ' Function-level data also Fortran-ordered / transposed view / row-strided, and a second call on the same array object after an in-place translation.')
+        ' Function-level data also Fortran-ordered / transposed view / row-strided, and a second call on the same array object after an in-place translation.'
+        ' Function level also with K = 10..25.')
 ASSUMPTIONS = ["exit reason (converged) is read from the guarded run_end hook", "runs where some cluster is empty or that stopped at the limit are outside the property's quantifier (discarded)"]
 
 
